@@ -1297,11 +1297,12 @@ def cyclic_input_rule(cx, rep, rid):
             continue
         fn = v["function"]
         # the reference class: its validate fetches the target out of a table by a name field and delegates
-        inp = (_params(fn) + [None, None])[1]
-        lookups = [x for x in twalk(fn) if x["type"] == "MemberExpression" and x["property"]["type"] == "Computed" and ts_s(x["property"]["expression"]).startswith("this.")
-                   and unparen(x["object"]).get("type") == "CallExpression" and _ident(unparen(x["object"])) != inp]
+        # the reference class, by role: it declares an accessor of the registry of named validators (a method - abstract
+        # or not - whose declared result is a dictionary of Runtype), and its validate delegates (b53 / b70: the lookup
+        # itself may sit in a helper)
+        registry = [mn for mn, mm in c.methods.items() if "Record<string,Runtype>" in tsast.type_str((mm["function"].get("returnType") or {}).get("typeAnnotation")).replace(" ", "")]
         delegs = [x for x in twalk(fn) if x["type"] == "CallExpression" and ts_s(x["callee"]).endswith(".validate")]
-        if not lookups or not delegs or len(list(twalk(fn))) > 80:
+        if not registry or not delegs or len(list(twalk(fn))) > 80:
             continue
         for mname in ("validate", "parseAfterValidation", "reportDecodeError"):
             m = c.methods.get(mname)
